@@ -37,66 +37,7 @@ def plan(tier, seed):
 # ---------------------------------------------------------------------------------------------------------------------
 # known-finding predicates (DESIGN appendix D): mechanism keys computed from the input text and the outcome
 
-IDENT = re.compile(r"[A-Za-z_$][A-Za-z_0-9$.]*")
-
-
-def definitional_cycle(texts):
-    """Tolerant line scanner: does the symbol dependency graph of the input have a cycle?
-    node per symbol name (case-folded); 'name = expr' -> edges to identifiers of expr; a label -> edges to the identifiers in the
-    operand of every size-less directive (.blkb .blkw .align .repeat count, '. =' skip, <expr> chunks of .ascii-family,
-    .link) that precedes it in link order."""
-    graph = {}
-    sizeless_idents = set()
-    base_set = False
-    for text in texts:
-        for raw in text.split("\n"):
-            line = raw.split(";")[0]
-            # labels on this line
-            rest = line
-            while True:
-                m = re.match(r"\s*([A-Za-z_0-9$.]+)\s*::?", rest)
-                if not m:
-                    break
-                name = m.group(1).lower()
-                graph.setdefault(name, set()).update(sizeless_idents)
-                rest = rest[m.end():]
-            m = re.match(r"\s*([A-Za-z_$.][A-Za-z_0-9$.]*)\s*==?\s*(.*)", rest)
-            if m and not rest.lstrip().startswith(".="):
-                name = m.group(1).lower()
-                ids = {i.lower() for i in IDENT.findall(m.group(2))}
-                if name == ".":
-                    mentions_dot = "." in re.sub(r"[A-Za-z_0-9$.]*[A-Za-z_0-9$]|\d+\.", "", m.group(2))
-                    if not base_set and mentions_dot:
-                        return True         # the link base defined in terms of the location counter, i.e. of itself
-                    base_set = True
-                    sizeless_idents |= ids
-                    sizeless_idents.add(".")
-                else:
-                    graph.setdefault(name, set()).update(ids)
-                    if "." in re.sub(r"[A-Za-z_0-9$.]*[A-Za-z_0-9$]", "", m.group(2)):
-                        graph[name] |= sizeless_idents
-                continue
-            m = re.match(r"\s*(\.blkb|\.blkw|\.align|\.repeat|\.link|\.ascii|\.asciz|\.rad50|\.even|\.odd|\.include|insert_file)\b(.*)", rest, re.I)
-            if m:
-                if m.group(1).lower() == ".link":
-                    base_set = True
-                sizeless_idents |= {i.lower() for i in IDENT.findall(m.group(2))}
-    # cycle detection
-    color = {}
-
-    def dfs(n):
-        color[n] = 1
-        for m2 in graph.get(n, ()):
-            c = color.get(m2, 0)
-            if c == 1:
-                return True
-            if c == 0 and m2 in graph and dfs(m2):
-                return True
-        color[n] = 2
-        return False
-    import sys
-    sys.setrecursionlimit(10000)
-    return any(color.get(n, 0) == 0 and dfs(n) for n in list(graph))
+from vlib.findings import definitional_cycle  # noqa: E402
 
 
 def known_key(texts, o):
@@ -107,6 +48,8 @@ def known_key(texts, o):
     if o.cls == "internal" and (o.exc_type in ("OverflowError", "MemoryError") or
                                 (o.exc_type == "ValueError" and "Exceeds the limit" in (o.exc or ""))):
         return "astronomic-integer"
+    if o.cls == "internal" and o.exc_type == "TypeError" and "Deferred" in (o.exc or "") and any("%" in t for t in texts):
+        return "deferred-register-number"
     return None
 
 
